@@ -1,15 +1,19 @@
 import TpmVerif.Base.Trace
 import TpmVerif.Model.Tpm12Core
+import TpmVerif.Model.Tpm12Nv
+import TpmVerif.Model.Tpm12Counter
 import TpmVerif.Spec.Tpm12Pcr
 /-! Correspondence checker for C20 traces: replays every traced operation (TPM_Extend, TPM_PCRRead, TPM_PCR_Reset,
     TPM_SHA1Start/Update/Complete/CompleteExtend, TPM_IO_Hash_*, TPM_IO_TpmEstablished_*, Startup, power cycle,
     suspend/resume) through `Model.Tpm12.Core.step` with the executable SHA-1 and reports every return code and
     every output byte string on which model and implementation differ. -/
 namespace TpmVerif.Check.C20
-open TpmVerif TpmVerif.Gen.Tpm12 TpmVerif.Model TpmVerif.Model.Tpm12.Core
+open TpmVerif TpmVerif.Gen.Tpm12 TpmVerif.Model TpmVerif.Model.Tpm12 TpmVerif.Model.Tpm12.Core
 
 structure CS where
   st : St := powerOn false TPM_BUFFER_MAX
+  nv : Nv.St := Nv.fresh
+  ctr : Counter.St := {}
   rep : Report := {}
   line : Nat := 0
   live : Bool := false
@@ -23,7 +27,8 @@ def branch (c : CS) (b : String) : CS :=
 def parseOp (l : Line) : Option Op :=
   let loc := l.nat "loc"
   match l.str "name" with
-  | "startup" => some (.startup 1)
+  | "startup" => some (.startup ((l.nat? "st").getD 1))
+  | "savestate" => some .saveState
   | "extend" => some (.extend loc (l.nat "pcr") (l.bytes "d"))
   | "pcrread" => some (.pcrRead (l.nat "pcr"))
   | "pcrreset" => some (.pcrReset loc (l.bytes "sel"))
@@ -67,19 +72,175 @@ def sigOf (name : String) : String :=
   | "estget" | "estreset" => "SPEC[tpm-established] "
   | _ => ""
 
+/-! ### NV storage lines (`nv name=...`) -/
+
+def parseTag (l : Line) : Nv.Tag :=
+  match l.str "tag" with
+  | "auth1ok" => .auth1 true
+  | "auth1bad" => .auth1 false
+  | _ => .rqu
+
+def parseNv (l : Line) : Option Nv.Op :=
+  let tag := parseTag l
+  let loc := l.nat "loc"
+  let hw := l.nat "hw" ≠ 0
+  match l.str "name" with
+  | "define" => some (.define tag hw (l.nat "idx") (l.nat "attrs") (l.nat "size") (l.nat "lr") (l.nat "lw"))
+  | "write" => some (.write tag loc hw (l.nat "idx") (l.nat "off") (l.bytes "d"))
+  | "read" => some (.read tag loc hw (l.nat "idx") (l.nat "off") (l.nat "n"))
+  | "writeauth" => some (.writeAuth (tag == .auth1 true) loc hw (l.nat "idx") (l.nat "off") (l.bytes "d"))
+  | "readauth" => some (.readAuth (tag == .auth1 true) loc hw (l.nat "idx") (l.nat "off") (l.nat "n"))
+  | "takeownership" => some .takeOwnership
+  | "tscpp" => some (.tscPP (l.nat "v"))
+  | "getpub" => some (.getPub (l.nat "idx"))
+  | "savestate" => some .saveState
+  | _ => none
+
+def attrClass (a : Nat) : String :=
+  let bit (m : Nat) (n : String) : String := if Nv.has a m then n else ""
+  bit TPM_NV_PER_PPWRITE "Pw" ++ bit TPM_NV_PER_OWNERWRITE "Ow" ++ bit TPM_NV_PER_AUTHWRITE "Aw" ++ bit TPM_NV_PER_WRITEALL "All" ++
+  bit TPM_NV_PER_WRITEDEFINE "Wd" ++ bit TPM_NV_PER_WRITE_STCLEAR "Ws" ++ bit TPM_NV_PER_GLOBALLOCK "Gl" ++ bit TPM_NV_PER_PPREAD "Pr" ++
+  bit TPM_NV_PER_OWNERREAD "Or" ++ bit TPM_NV_PER_AUTHREAD "Ar" ++ bit TPM_NV_PER_READ_STCLEAR "Rs"
+
+def idxClass (i : Nat) : String :=
+  if i = TPM_NV_INDEX0 then "index0" else if i = TPM_NV_INDEX_LOCK then "lock" else if i = TPM_NV_INDEX_DIR then "dir"
+  else if i = TPM_NV_INDEX_TRIAL then "trial" else if 0x11200 ≤ i && i < 0x11210 then "pool" else "other"
+
+/-- coverage class of an NV operation: command, index class, tag, nvLocked, the area's lock state, model rc -/
+def nvBranch (s : Nv.St) (l : Line) (rc : Nat) : String :=
+  let name := l.str "name"
+  let idx := l.nat "idx"
+  let area := Nv.lookup s.mem idx
+  let lockSt := match area with
+    | some a => s!"{attrClass a.attrs}/rs={a.readSt}/ws={a.writeSt}/wd={a.writeDef}"
+    | none => "undefined"
+  match name with
+  | "define" => s!"nv-define/{idxClass idx}/{l.str "tag"}/locked={s.mem.nvLocked}/new={attrClass (l.nat "attrs")}/size0={decide (l.nat "size" = 0)}/old={lockSt}/gl={s.globalLock}/rc={rc}"
+  | "writeauth" => s!"nv-writeauth/{l.str "tag"}/owner={s.mem.ownerInstalled}/{lockSt}/gl={s.globalLock}/len0={decide ((l.bytes "d").length = 0)}/rc={rc}"
+  | "readauth" => s!"nv-readauth/{l.str "tag"}/owner={s.mem.ownerInstalled}/{lockSt}/n0={decide (l.nat "n" = 0)}/rc={rc}"
+  | "write" => s!"nv-write/{idxClass idx}/{l.str "tag"}/locked={s.mem.nvLocked}/{lockSt}/gl={s.globalLock}/len0={decide ((l.bytes "d").length = 0)}/rc={rc}"
+  | "read" => s!"nv-read/{idxClass idx}/{l.str "tag"}/locked={s.mem.nvLocked}/{lockSt}/n0={decide (l.nat "n" = 0)}/rc={rc}"
+  | "tscpp" => s!"nv-tscpp/v={l.nat "v"}/cmd={s.mem.ppCmd}/life={s.mem.ppLife}/lock={s.ppLock}/rc={rc}"
+  | "getpub" => s!"nv-getpub/{idxClass idx}/rc={rc}"
+  | _ => s!"nv-{name}/rc={rc}"
+
+def nvSig (name : String) : String :=
+  match name with
+  | "define" => "SPEC[nv-define] "
+  | "write" | "writeauth" => "SPEC[nv-write] "
+  | "read" | "readauth" => "SPEC[nv-read] "
+  | "takeownership" => "SPEC[take-ownership] "
+  | "tscpp" => "SPEC[nv-physical-presence] "
+  | "getpub" => "SPEC[nv-public-flags] "
+  | "savestate" => "SPEC[nv-savestate] "
+  | _ => ""
+
+def bit (b : Bool) : UInt8 := if b then 1 else 0
+
+def stepNv (c : CS) (l : Line) : CS :=
+  let name := l.str "name"
+  let c := { c with rep := { c.rep with events := c.rep.events + 1 } }
+  let c := if l.nat "ret" ≠ 0 then mism c s!"{name}: TPMLIB_Process returned {l.nat "ret"}" else c
+  -- the failed state (entered through the TIS error routes, which only the PCR model follows) is one state of one TPM
+  let c := { c with nv := { c.nv with failed := c.nv.failed || c.st.failed } }
+  -- for the PCR/SHA-1 model an NV ordinal is "any other ordinal"
+  let c := { c with st := (Tpm12.Core.stepCmd Sha1.sha1 c.st (if name = "savestate" then .saveState else .other)).1 }
+  if name = "permflags" || name = "volflags" then
+    -- TPM_PERMANENT_FLAGS / TPM_STCLEAR_FLAGS as reported: the flags the NV model owns, at their positions in the structures
+    let s := Nv.invalidateSaved c.nv
+    let c := { c with nv := s }
+    let out := l.bytes "out"
+    let c := branch c s!"nv-{name}/rc={l.nat "rc"}"
+    let want := if s.postInit then TPM_INVALID_POSTINIT else if s.failed then TPM_FAILEDSELFTEST else 0
+    if l.nat "rc" ≠ want then mism c s!"SPEC[nv-flags] {name}: GetCapability rc model={want} impl={l.nat "rc"}" else
+    if want ≠ 0 then c else
+    let body := out.drop 4                   -- uint32 length, then the structure (tag, BOOLs)
+    let flag (k : Nat) : UInt8 := body.getD (2 + k) 0xee
+    if name = "permflags" then
+      let want := [bit s.mem.ppLife, bit s.mem.ppHw, bit s.mem.ppCmd, bit s.mem.nvLocked]
+      let got := [flag 6, flag 7, flag 8, flag 15]
+      if want ≠ got then mism c s!"SPEC[nv-flags] TPM_PERMANENT_FLAGS (physicalPresenceLifetimeLock, HWEnable, CMDEnable, nvLocked): model={hexOfBytes want} impl={hexOfBytes got}" else c
+    else
+      let want := [bit s.pp, bit s.ppLock, bit s.globalLock]
+      let got := [flag 2, flag 3, flag 4]
+      if want ≠ got then mism c s!"SPEC[nv-flags] TPM_STCLEAR_FLAGS (physicalPresence, physicalPresenceLock, bGlobalLock): model={hexOfBytes want} impl={hexOfBytes got}" else c
+  else
+  match parseNv l with
+  | none => mism c s!"unknown nv op {name}"
+  | some op =>
+    let (nv', obs) := Nv.step c.nv op
+    let c := branch c (nvBranch (Nv.invalidateSaved c.nv) l obs.rc)
+    let c := { c with nv := nv' }
+    -- the counter model learns about the owner and about TPM_SaveState (countID is part of the saved state)
+    let c := if name = "takeownership" && l.nat "rc" = 0 then { c with ctr := (Counter.step c.ctr .takeOwnership).1 } else c
+    let c := if name = "savestate" && l.nat "rc" = 0 then { c with ctr := (Counter.step c.ctr .saveState).1 } else c
+    let c := if l.nat "rc" ≠ obs.rc then mism c s!"{nvSig name}{name} {l.str "tag"} idx={l.nat "idx"}: rc model={obs.rc} impl={l.nat "rc"}" else c
+    -- write-through: the command hands the permanent state to the storage callback exactly when the model says so
+    let c := if l.nat "rc" = obs.rc && (l.nat? "stores").isSome && obs.stored ≠ decide (l.nat "stores" > 0) then
+        mism c s!"SPEC[nv-write-through] {name} idx={l.nat "idx"}: model stored={obs.stored}, storage callback calls={l.nat "stores"}" else c
+    -- an authorized command that succeeds answers with an HMAC that verifies under the same secret
+    let c := if l.nat "rc" = 0 && (l.get? "hmac").isSome && l.str "hmac" ≠ "1" then
+        mism c s!"SPEC[nv-response-hmac] {name} idx={l.nat "idx"}: the response HMAC does not verify (hmac={l.str "hmac"})" else c
+    if l.nat "rc" = 0 && obs.rc = 0 && l.bytes "out" ≠ obs.out then
+      mism c s!"{nvSig name}{name} idx={l.nat "idx"}: output model={hexOfBytes obs.out} impl={l.str "out"}"
+    else c
+
+/-! ### monotonic counter lines (`ctr name=...`) -/
+
+def parseCtr (l : Line) : Option Counter.Op :=
+  let ok := l.nat "ok" ≠ 0
+  match l.str "name" with
+  | "create" => some (.create ok)
+  | "increment" => some (.increment (l.nat "id") ok)
+  | "read" => some (.read (l.nat "id"))
+  | "release" => some (.release (l.nat "id") ok)
+  | "releaseowner" => some (.releaseOwner (l.nat "id") ok)
+  | _ => none
+
+def activeClass : Counter.Active → String
+  | .null => "none"
+  | .illegal => "released"
+  | .id _ => "some"
+
+def stepCtr (c : CS) (l : Line) : CS :=
+  let name := l.str "name"
+  let c := { c with rep := { c.rep with events := c.rep.events + 1 } }
+  let c := if l.nat "ret" ≠ 0 then mism c s!"{name}: TPMLIB_Process returned {l.nat "ret"}" else c
+  -- for the other two models a counter ordinal is "any other ordinal" (IncrementCounter etc. store the permanent state)
+  let c := { c with st := (Tpm12.Core.stepCmd Sha1.sha1 c.st .other).1, nv := (Nv.step c.nv .other).1 }
+  let c := if l.nat "stores" > 0 then { c with nv := (Nv.step c.nv .stored).1 } else c
+  let ctr0 := { c.ctr with failed := c.ctr.failed || c.st.failed || c.nv.failed, savedActive := if c.nv.saved.isSome then c.ctr.savedActive else none }
+  match parseCtr l with
+  | none => mism c s!"unknown counter op {name}"
+  | some op =>
+    let (ctr', obs) := Counter.step ctr0 op
+    let id := l.nat "id"
+    let c := branch c s!"ctr-{name}/ok={l.nat "ok"}/valid={Counter.validId ctr0 id}/inrange={decide (id < TPM_MIN_COUNTERS)}/active={activeClass ctr0.active}/isactive={decide (ctr0.active = .id id)}/rc={obs.rc}"
+    let c := { c with ctr := ctr' }
+    let c := if l.nat "rc" ≠ obs.rc then mism c s!"SPEC[counter-rc] {name} id={id}: rc model={obs.rc} impl={l.nat "rc"}" else c
+    let c := if l.nat "rc" = 0 && obs.rc = 0 && name ≠ "release" && name ≠ "releaseowner" && (l.nat "value" ≠ obs.value || (name = "create" && id ≠ obs.id)) then
+        mism c s!"SPEC[counter-value] {name}: model id={obs.id} value={obs.value} impl id={id} value={l.nat "value"}" else c
+    let c := if l.nat "rc" = obs.rc && obs.stored ≠ decide (l.nat "stores" > 0) then
+        mism c s!"SPEC[counter-write-through] {name} id={id}: model stored={obs.stored}, storage callback calls={l.nat "stores"}" else c
+    if l.nat "rc" = 0 && l.str "hmac" = "0" then mism c s!"SPEC[counter-response-hmac] {name} id={id}: the response HMAC does not verify" else c
+
 def step (c : CS) (l : Line) : CS :=
   let c := { c with line := c.line + 1 }
   match l.kind with
   | "hist" => { c with live := false }
-  | "power" => { c with st := powerOn false (l.nat "maxbuf"), live := true }
+  | "ctr" => if c.live then stepCtr c l else c
+  | "power" => { c with st := powerOn false (l.nat "maxbuf"), nv := Nv.fresh, ctr := {}, live := true }
   | "restart" =>
-      let c := branch c s!"restart/ret={l.nat "ret"}/failed={c.st.failed}/established={c.st.established}"
+      let c := branch c s!"restart/ret={l.nat "ret"}/failed={c.st.failed}/established={c.st.established}/saved={c.nv.saved.isSome}/nvlocked={c.nv.mem.nvLocked}"
       let c := if l.nat "ret" ≠ 0 then mism c s!"MainInit after Terminate returned {l.nat "ret"}" else c
-      { c with st := powerOn c.st.established (l.nat "maxbuf") }
+      { c with st := { powerOn c.st.established (l.nat "maxbuf") with saved := c.st.saved }, nv := Nv.powerCycle c.nv,
+               ctr := (Counter.step c.ctr .powerCycle).1 }
   | "resume" =>
       -- suspend/resume through the state blobs must preserve everything this model tracks
-      let c := branch c s!"resume/ret={l.nat "ret"}/thread={c.st.sha.isSome}/tis={c.st.tis.isSome}"
+      let c := branch c s!"resume/ret={l.nat "ret"}/thread={c.st.sha.isSome}/tis={c.st.tis.isSome}/saved={c.nv.saved.isSome}"
+      let c := { c with nv := Nv.resume c.nv }
       if l.nat "ret" ≠ 0 then mism c s!"SPEC[resume] GetState/SetState/MainInit returned {l.nat "ret"}" else c
+  | "nv" => if c.live then stepNv c l else c
   | "san" =>
       let c := { c with rep := { c.rep with events := c.rep.events + 1 } }
       mism c s!"SPEC[{l.str "sig"}] {l.str "kind"} report in {l.str "site"} while processing {l.str "req"} (history {l.str "hist"}, call {l.str "idx"})"
@@ -89,8 +250,20 @@ def step (c : CS) (l : Line) : CS :=
       | none => mism c s!"unknown op {l.str "name"}"
       | some op =>
         let c := { c with rep := { c.rep with events := c.rep.events + 1 } }
-        let (st', obs) := Tpm12.Core.step Sha1.sha1 c.st op
+        let (st', obs) := Tpm12.Core.stepCmd Sha1.sha1 c.st op
         let c := { c with st := st' }
+        -- for the NV model: Startup acts on the volatile NV flags; any other ordinal only invalidates the saved state
+        let c := match op with
+          | .startup t =>
+              let (nv', nobs) := Nv.step c.nv (.startup t)
+              let c := branch c s!"nv-startup/st={t}/saved={c.nv.saved.isSome}/rc={nobs.rc}"
+              let c := if nobs.rc ≠ obs.rc then mism c s!"internal: the two models disagree on Startup: core={obs.rc} nv={nobs.rc}" else c
+              let ctr0 := { c.ctr with savedActive := if c.nv.saved.isSome then c.ctr.savedActive else none }
+              { c with nv := nv', ctr := (Counter.step ctr0 (.startup t)).1 }
+          | _ => if op.isOrdinal then { c with nv := (Nv.step c.nv .other).1 } else c
+        -- an ordinal / TIS call outside the NV model that stored the permanent state (tpmEstablished changed, ...) refreshes
+        -- what a power cycle will bring back
+        let c := if l.nat "stores" > 0 then { c with nv := (Nv.step c.nv .stored).1 } else c
         let c := branch c (opBranch l obs.rc)
         let name := l.str "name"
         let c := if l.nat "ret" ≠ 0 then mism c s!"{name}: TPMLIB_Process returned {l.nat "ret"}" else c
